@@ -88,16 +88,19 @@ class World:
         st = getattr(self.ds, "storage_strategy", None)
         self.ds = None
         self.handles = {}
+        closed = False
         if st is not None:
             for attr in ("conn", "db"):
                 c = getattr(st, attr, None)
                 if c is not None and hasattr(c, "close"):
                     try:
                         c.close()
+                        closed = True
                     except Exception:
                         pass
         st = None
-        gc.collect()
+        if not closed and self.backend != "memory":
+            gc.collect()  # a refactored store without conn/db: rely on finalisers
 
     def flush(self):
         """Clean shutdown part 1: make everything durable through whatever the store offers."""
